@@ -13,6 +13,14 @@ Reset == /\ st' = [b \in Blocks |-> "dead"] /\ refs' = [b \in Blocks |-> 0] /\ h
          /\ size' = [b \in Blocks |-> 0] /\ dt' = [b \in Blocks |-> FALSE] /\ kid' = [b \in Blocks |-> 0]
          /\ par' = [b \in Blocks |-> 0] /\ obs' = <<0>>
 
+\* n references taken / dropped (not the last one) in one trace line
+RefN(b, n) == /\ st[b] = "live" /\ held[b] > 0
+              /\ refs' = [refs EXCEPT ![b] = @ + n] /\ held' = [held EXCEPT ![b] = @ + n]
+              /\ UNCHANGED <<st, size, dt, kid, par>>
+UnrefN(b, n) == /\ st[b] = "live" /\ held[b] > n /\ refs[b] > n
+                /\ refs' = [refs EXCEPT ![b] = @ - n] /\ held' = [held EXCEPT ![b] = @ - n]
+                /\ UNCHANGED <<st, size, dt, kid, par>>
+
 \* logged observation p[b] = <<alive, size, aligned, intact>>
 ProjOK(p) == \A b \in Blocks :
                 IF p[b][1] = 1
@@ -25,6 +33,8 @@ TNext == /\ l <= Len(Tr)
             IF ev.a = "Reset" THEN Reset
             ELSE /\ CASE ev.a = "New"    -> New(ev.b, ev.s, ev.d = 1, ev.c)
                       [] ev.a = "Ref"    -> Ref(ev.b)
+                      [] ev.a = "RefN"   -> RefN(ev.b, ev.s)
+                      [] ev.a = "UnrefN" -> UnrefN(ev.b, ev.s)
                       [] ev.a = "Unref"  -> Unref(ev.b)
                       [] ev.a = "Unrefp" -> Unrefp(ev.b)
                       [] ev.a = "SizeOf" -> SizeOf(ev.b)
